@@ -276,6 +276,39 @@ Proof.
   - apply adm_fuse_history.
 Qed.
 
+
+(** ** known finding F8 (known_findings.json): the references [iter_mut] hands
+    out outlive the iterator.  [let v: Vec<_> = q.iter_mut().collect();
+    *v[0].1 = 100; drop(v)] exhausts and drops the iterator (heap rebuilt) and
+    writes afterwards; as a state transformer that is a second [iter_mut]
+    whose first element is rewritten and which is then leaked (no rebuild).
+    [peek] then reports an element that is not a maximum: C01's conclusion
+    fails on this history, which is why [adm] (the premise of the order
+    theorems) does not admit leaked [iter_mut]s, while the safety theorems
+    (C04, C10) do. *)
+Definition hist_late : list zop := [
+  ONew KPQ 0;
+  OPush 0 (1, 10) 1;
+  OPush 0 (2, 20) 2;
+  OPush 0 (3, 30) 3;
+  OIterMut 0 ADirect [INext same_prio same_item; INext same_prio same_item;
+                      INext same_prio same_item; INext same_prio same_item] EDrop;
+  OIterMut 0 ADirect [INext (fun _ => 100) same_item] EForget;
+  OPeek 0 SMax
+].
+
+Example late_write_refutes_order :
+  exists x, last (zrun 0 (init_machine 1) hist_late) = Some x /\
+    x.1.1 = OutOptE (Some ((3, 30), 3)) /\
+    (exists s, getreg x.2 0 = Some (KPQ, s) /\ In ((1, 10), 100) (smap s)).
+Proof. eexists. split; [vm_compute; reflexivity|]. split; [reflexivity|].
+  eexists. split; [vm_compute; reflexivity|]. vm_compute. auto. Qed.
+
+Example late_write_still_safe :
+  Forall (fun x : zout * nat * zmachine => is_fault x.1.1 = false)
+         (zrun 0 (init_machine 1) hist_late).
+Proof. vm_compute. repeat constructor. Qed.
+
 Print Assumptions ikeq_ok.
 Print Assumptions adm_history.
 Print Assumptions run_history_ok.
